@@ -126,6 +126,10 @@ def run(v, tier, seed, replay):
         lines.append(s)
     rc, out, err = vlib.run_lines(exe, "\n".join(lines) + "\n", args=["512"], timeout=1500)
     done = [l for l in out if l.startswith("DONE")]
+    if isinstance(rc, int) and rc < 0:
+        # the replayer died inside a library call (never on a sound tree): report, and judge what was printed before
+        v.violation("observables/crash", "obs_replay died with signal %s after %d reported mismatches: %s" % (-rc, sum(1 for l in out if l.startswith("MISMATCH")), err[-400:]), None)
+        return "model_checking"
     if rc != 0 or not done:
         raise Infra("obs_replay failed rc=%s: %s %s" % (rc, "\n".join(out[-5:]), err[-2000:]))
     _, nq, ncmp, nmis, mr = done[0].split()
